@@ -285,10 +285,30 @@ def judge_config(ctx, case):
         ctx.fail("config", case, f"unknown key {key!r} raised {type(err).__name__}, documented is KeyError", "exception_type")
 
 
+def judge_config_isolation(ctx, case):
+    """Config objects do not share state: creating or changing another instance leaves formulae.config alone."""
+    from formulae import config
+    from formulae.config import Config
+
+    ctx.count(core.canon(case), True, ["config:isolation"], stratum="config")
+    try:
+        config["EVAL_UNSEEN_CATEGORIES"] = case["global"]
+        a = Config()
+        b = Config({"EVAL_UNSEEN_CATEGORIES": case["other"]})
+        b["EVAL_UNSEEN_CATEGORIES"] = case["other"]
+        seen = (config["EVAL_UNSEEN_CATEGORIES"], a["EVAL_UNSEEN_CATEGORIES"], b["EVAL_UNSEEN_CATEGORIES"])
+        if seen != (case["global"], "error", case["other"]):
+            ctx.fail("config", case, f"global set to {case['global']!r}, a fresh Config() and Config({case['other']!r}) read back {seen}", "shared_state")
+    finally:
+        config["EVAL_UNSEEN_CATEGORIES"] = "error"
+
+
 def judge(ctx, case):
     if ctx.skip():
         return
-    if case.get("kind") == "config":
+    if case.get("kind") == "config_isolation":
+        judge_config_isolation(ctx, case)
+    elif case.get("kind") == "config":
         judge_config(ctx, case)
     else:
         judge_design(ctx, case)
@@ -312,6 +332,9 @@ def run(ctx):
                 if how == "attr" and key == "":
                     continue
                 judge(ctx, {"kind": "config", "key": key, "value": value, "how": how})
+    for g_ in ("error", "warning", "silent"):
+        for o_ in ("error", "warning", "silent"):
+            judge(ctx, {"kind": "config_isolation", "global": g_, "other": o_})
     ctx.exhaustive["configuration pool: 9 keys x 12 values x 3 ways of setting"] = {"complete": True}
     per = 200 if ctx.tier == "quick" else 2000
     ctx.parallel(_worker, [(k, per) for k in range(core.NPROC)])
